@@ -148,7 +148,7 @@ pub fn judge_pair(h: &History) -> Result<(u32, bool), Failure> {
 }
 
 pub fn replay(case: &Value, _kf: &KnownFindings) -> Result<(), Failure> {
-    let h = History::from_json(if case.get("with_rejected_frames").is_some() { &case["with_rejected_frames"] } else { case });
+    let h = super::cross::case_history(if case.get("with_rejected_frames").is_some() { &case["with_rejected_frames"] } else { case });
     judge_pair(&h).map(|_| ())
 }
 
